@@ -215,6 +215,14 @@ fn measure_sized(sc: &OpSc, m: i64, big: usize, iset: &mut InstructionSet) -> Re
     // begin first: the state's graphs take their node ids from the simulated counter
     simenv::begin(&env, Envelope::off(), &[], None);
     let mut st = sc.state.build(&cfg);
+    if sc.seed % 5 == 1 {
+        // the binding table every program starts with under the command-line front end: BIN alone
+        let keys: Vec<String> = st.name_bindings.iter().map(|(k, _)| k.clone()).collect();
+        for k in keys {
+            st.name_bindings.remove(&k);
+        }
+        st.name_bindings.insert("BIN".to_string(), Item::id("/usr/local/bin/pushr".to_string()));
+    }
     let mi = if m == NONFINITE { i32::MIN as i64 } else { m };
     for (k, l) in sc.int_layout.iter().enumerate() {
         st.int_stack.push(operand(*l, mi, sc.small_ints[k % sc.small_ints.len()]));
